@@ -365,6 +365,61 @@ class Checker:
                        'result is labelled with frame %s, not the left operand\'s' % fr, line=ln)
         rep.floor('R12.4', 'frame reconciliation sites', n, 6)
         self.r126(meths)
+        self.r127(meths)
+
+    def r127(self, meths):
+        """Operator dispatch.  For `a - b` Python calls type(b).__rsub__(b, a) BEFORE type(a).__sub__(a, b) when type(b) is a proper
+        subclass of type(a) that overrides the reflected method.  The Screw-operand branch of Screw.__radd__ / __rsub__ combines the raw
+        payloads (it cannot be reached as long as no subclass overrides these methods: Screw.__add__ / __sub__ handle every Screw first).
+        Once Wrench or Twist defines its own __radd__ / __rsub__, `Screw - Wrench` is answered by that branch: it must then reconcile
+        the frames like the forward operator does - the right operand (self) re-expressed in the LEFT operand's (other's) frame."""
+        from ..engine import peval as _pe
+        from ..engine.paths import paths_of
+        rep = self.rep
+        rep.rule('R12.7', 'subclass-first dispatch: a reflected + / - that a subclass of Screw overrides answers `Screw <op> Subclass`; its '
+                          'Screw-operand branch must reconcile the frames (right operand into the left operand\'s frame)')
+        subs = self.model.subclasses(self.screw)
+        for op in ('add', 'sub'):
+            rname = '__r%s__' % op
+            over = [c for c in subs if rname in c.methods and c.methods[rname].cls is c]
+            base = self.screw.methods.get(rname)
+            if not over:
+                rep.ob('R12.7', base if base is not None else self.screw.module.relpath, '%s: not overridden below Screw' % rname, True,
+                       'no subclass of Screw defines %s: for two screws the forward operator always answers' % rname, qualname='Screw')
+                continue
+            for c in over:
+                targets = [c.methods[rname]]
+                own = c.methods[rname]
+                # does the override hand a Screw left operand on to the inherited implementation?
+                delegates = any(e[0] == 'call' and e[1].replace(' ', '') == 'super().' + rname
+                                for p_ in paths_of(own.node, own.params, consts={'isinstance(%s,Screw)' % own.params[1]: True}) for e in p_.events)
+                if base is not None and delegates:
+                    targets.append(base)
+                raw = []
+                for fi in targets:
+                    other = fi.params[1]
+                    flat = _pe.flatten(meths, fi.node, depth=2, stop=('changeFrame', 'copy'), impure=True)
+                    ps = paths_of(flat, fi.params, consts={'isinstance(%s,Screw)' % other: True})
+                    eq_texts = ('%s.frame_applied==self.frame_applied' % other, 'self.frame_applied==%s.frame_applied' % other)
+                    ne_texts = ('%s.frame_applied!=self.frame_applied' % other, 'self.frame_applied!=%s.frame_applied' % other)
+                    for pth in ps:
+                        if pth.ret is None or pth.ret == '<none>' or pth.ret_src is None:
+                            continue
+                        try:
+                            rt = ast.parse(pth.ret_src, mode='eval').body
+                        except SyntaxError:
+                            continue
+                        same = any(pth.facts.get(t) is True for t in eq_texts) or any(pth.facts.get(t) is False for t in ne_texts)
+                        reads_other = any(isinstance(x, ast.Attribute) and x.attr == 'data' and norm_text(x.value) == other for x in ast.walk(rt))
+                        reads_self_raw = any(isinstance(x, ast.Attribute) and x.attr == 'data' and norm_text(x.value) == 'self' for x in ast.walk(rt))
+                        if reads_other and reads_self_raw and not same:
+                            raw.append((fi, pth.ret_line))
+                rep.ob('R12.7', c.methods[rname], '%s.%s: Screw left operands are answered with frames reconciled' % (c.name, rname), not raw,
+                       ('%s overrides %s, so `Screw %s %s` is dispatched to it before Screw.__%s__ (subclass-first rule); its Screw-operand branch '
+                        '(%s line %s) combines `%s.data` and `self.data` directly: operands in different frames are combined without re-expressing '
+                        'the right operand in the left operand\'s frame, and the result carries the wrong frame'
+                        % (c.name, rname, '+' if op == 'add' else '-', c.name, op, raw[0][0].qualname, raw[0][1], raw[0][0].params[1])) if raw else 'reconciled',
+                       line=raw[0][1] if raw and raw[0][0] is c.methods[rname] else None)
 
     def r126(self, meths):
         """A 6-element array operand is combined as a 6x1 column: on the path taken for `isinstance(other, np.ndarray)` with
